@@ -845,6 +845,13 @@ impl Kanata {
         self.live_reload_requested
     }
 
+    /// Verification hook: the set of keys the platform input loops intercept right now
+    /// (a copy of `MAPPED_KEYS`).
+    #[cfg(kanata_verif)]
+    pub fn verif_mapped_keys() -> Vec<OsCode> {
+        MAPPED_KEYS.lock().iter().copied().collect()
+    }
+
     pub fn tick_ms(&mut self, ms_elapsed: u128, _tx: &Option<Sender<ServerMessage>>) -> Result<()> {
         let mut extra_ticks: u16 = 0;
         for _ in 0..ms_elapsed {
